@@ -96,7 +96,17 @@ func runConcurrent(c *Case) Verdict {
 			if rerr != nil {
 				return Verdict{Verdict: "infra", Note: "shared definitions: " + rerr.Error()}
 			}
-			if _, eerr := lisp.EVAL(context.Background(), ast, ns); eerr != nil {
+			// (the shared definitions start a future themselves: they run under the watchdog too)
+			var eerr error
+			kind, site, msg := guarded(20*time.Second, func() { _, eerr = lisp.EVAL(context.Background(), ast, ns) })
+			if kind != "" {
+				env.VerifEnvOp = nil
+				v.Verdict = kind
+				v.Key = kind + ":shared-definitions:" + site
+				v.Note = "evaluating the shared definitions (they start a future and wait for it): " + kind + " " + msg
+				return v
+			}
+			if eerr != nil {
 				return Verdict{Verdict: "infra", Note: "shared definitions: " + eerr.Error()}
 			}
 		}
